@@ -1,0 +1,65 @@
+//go:build verif
+
+package tsi
+
+import (
+	"regexp/syntax"
+)
+
+// Thin wrappers around the unexported pieces of the regular-expression translation of a tag filter, for the C10
+// correspondence harness of /verif. No behaviour of their own.
+
+// VerifC10SimplifyRegexpExt is simplifyRegexpExt (it rewrites sre in place).
+func VerifC10SimplifyRegexpExt(sre *syntax.Regexp, hasPrefix, hasSuffix bool) *syntax.Regexp {
+	return simplifyRegexpExt(sre, hasPrefix, hasSuffix)
+}
+
+// VerifC10SimplifyRegexp is simplifyRegexp (the rewrite / Simplify / String / Parse loop).
+func VerifC10SimplifyRegexp(sre *syntax.Regexp) *syntax.Regexp { return simplifyRegexp(sre) }
+
+// VerifC10IsEmptyRegexp reports whether sre is the package's emptyRegexp sentinel.
+func VerifC10IsEmptyRegexp(sre *syntax.Regexp) bool { return sre == emptyRegexp }
+
+// VerifC10ExtractRegexpPrefix is extractRegexpPrefix (no cache).
+func VerifC10ExtractRegexpPrefix(b []byte) ([]byte, []byte) { return extractRegexpPrefix(b) }
+
+// VerifC10EscapeRegexp is tagCharsRegexpEscaper.Replace.
+func VerifC10EscapeRegexp(s string) string { return tagCharsRegexpEscaper.Replace(s) }
+
+// VerifC10GetOrValues is getOrValues.
+func VerifC10GetOrValues(expr string) []string { return getOrValues(expr) }
+
+// VerifC10RegexpFromCache is getRegexpFromCache.
+func VerifC10RegexpFromCache(expr []byte) (orValues []string, reMatch func(b []byte) bool, reCost uint64, literalSuffix string, err error) {
+	rcv, err := getRegexpFromCache(expr)
+	return rcv.orValues, rcv.reMatch, rcv.reCost, rcv.literalSuffix, err
+}
+
+// VerifC10MarshalTagValue is marshalTagValue (escapes the bytes 0, 1, 2 and appends the tag separator).
+func VerifC10MarshalTagValue(dst, src []byte) []byte { return marshalTagValue(dst, src) }
+
+// VerifC10TagFilter is a read-only view of an initialised tagFilter.
+type VerifC10TagFilter struct {
+	tf tagFilter
+}
+
+// VerifC10NewTagFilter runs tagFilter.Init; the searches additionally call SetRegexMatchAll when the regular expression
+// matches the empty string, which the caller can do through SetRegexMatchAll.
+func VerifC10NewTagFilter(name, key, value []byte, isNegative, isRegexp bool) (*VerifC10TagFilter, error) {
+	v := &VerifC10TagFilter{}
+	err := v.tf.Init(name, key, value, isNegative, isRegexp)
+	return v, err
+}
+
+func (v *VerifC10TagFilter) Prefix() []byte          { return v.tf.prefix }
+func (v *VerifC10TagFilter) Value() []byte           { return v.tf.value }
+func (v *VerifC10TagFilter) OrSuffixes() []string    { return v.tf.orSuffixes }
+func (v *VerifC10TagFilter) IsEmptyMatch() bool      { return v.tf.isEmptyMatch }
+func (v *VerifC10TagFilter) IsAllMatch() bool        { return v.tf.isAllMatch }
+func (v *VerifC10TagFilter) IsEmptyValue() bool      { return v.tf.isEmptyValue }
+func (v *VerifC10TagFilter) HasReSuffixMatch() bool  { return v.tf.reSuffixMatch != nil }
+func (v *VerifC10TagFilter) MatchCost() uint64       { return v.tf.matchCost }
+func (v *VerifC10TagFilter) SetRegexMatchAll(b bool) { v.tf.SetRegexMatchAll(b) }
+
+// MatchSuffix is tagFilter.matchSuffix: b is the marshaled rest of a tag value after Prefix, including the separator.
+func (v *VerifC10TagFilter) MatchSuffix(b []byte) (bool, error) { return v.tf.matchSuffix(b) }
